@@ -140,9 +140,17 @@ def shape_request(rng, o, relative, scale=20.0, kinds=None, grid=None):
         dz = q(rng.uniform(0.5, 1.0) * scale * rng.choice([-1, 1])) if kind == "thread" else dz
         with_z = True if kind == "thread" else with_z
         t = (q(o[0] + d * math.cos(a)), q(o[1] + d * math.sin(a)), o[2] + dz)
+        while kind == "spiral" and abs(math.atan2(t[1] - o[1], t[0] - o[0])) < 0.05:
+            a += 0.3        # keep the (grid-snapped) target off the +X ray: see below
+            t = (q(o[0] + d * math.cos(a)), q(o[1] + d * math.sin(a)), o[2] + dz)
         if zero_xy:
             t2 = _zero_one(rng, o, t, scale)
-            if math.hypot(t2[0] - o[0], t2[1] - o[1]) > 0.1 * scale:
+            # a spiral starts on its centre, so its start angle is 0 by convention: a target on
+            # the +X ray would ask for a sweep of exactly 0 (= 2*pi), where the turn count is
+            # discontinuous -- outside the documented domain (sweep in (0.05, 2*pi - 0.05))
+            a1 = math.atan2(t2[1] - o[1], t2[0] - o[0])
+            degenerate = kind == "spiral" and abs(a1) < 0.05
+            if math.hypot(t2[0] - o[0], t2[1] - o[1]) > 0.1 * scale and not degenerate:
                 t = t2
         meta.update(target_abs=t, with_z=with_z)
         if kind == "thread":
